@@ -450,3 +450,87 @@ def check_exc_esc(ctx):
     ctx.floor('EXC-ESC-functions', len(ana.functions), 40,
               'functions reachable from the entry points')
     return ana
+
+
+# -------------------------------------------------------------- EDGE-END ---
+
+def check_edge_end(ctx):
+    '''KinematicDictBuilder._add_last_bin_for_dim completes the list of
+    lower edges with the one missing edge.  When the grid was printed in
+    decreasing order (first stored edge > second) the missing edge is the
+    upper edge of the FIRST printed record and goes in front; otherwise it
+    comes from the last record and goes at the end.  Position and record
+    must come from the same end of the printed order, and the two branches
+    must read different records.'''
+    program = ctx.program
+    func = program.func(f'{COMMON}:KinematicDictBuilder._add_last_bin_for_dim')
+    params = [p for p in func.params if p != 'self']
+    data, lastbin = params[0], params[-1]
+    assigns = {}
+    for node in walk_local(func.node):
+        if isinstance(node, ast.Assign) and isinstance(node.targets[0],
+                                                       ast.Name):
+            assigns.setdefault(node.targets[0].id, []).append(node.value)
+
+    def record_of(expr, depth=0):
+        '''"first" / "last" / None: which record of `data` expr reads.'''
+        if depth > 3:
+            return None
+        if isinstance(expr, ast.Name) and len(assigns.get(expr.id, [])) == 1:
+            return record_of(assigns[expr.id][0], depth + 1)
+        for node in ast.walk(expr):
+            if isinstance(node, ast.Subscript) and txt(node.value) == data:
+                idx = node.slice
+                if isinstance(idx, ast.Constant) and idx.value == 0:
+                    return 'first'
+                if txt(idx) == lastbin or (isinstance(idx, ast.Constant)
+                                           and idx.value == -1):
+                    return 'last'
+                return None
+        return None
+    found = 0
+    for node in walk_local(func.node):
+        if not isinstance(node, ast.If):
+            continue
+        comps = [c for c in ast.walk(node.test) if isinstance(c, ast.Compare)
+                 and isinstance(c.ops[0], (ast.Gt, ast.Lt)) and '[0]' in
+                 txt(c) and '[1]' in txt(c)]
+        if not comps:
+            continue
+        found += 1
+        decreasing_true = isinstance(comps[0].ops[0], ast.Gt) == (
+            '[0]' in txt(comps[0].left))
+        dec, inc = (node.body, node.orelse) if decreasing_true else (
+            node.orelse, node.body)
+
+        def placement(stmts):
+            for stmt in stmts:
+                for call in ast.walk(stmt):
+                    if isinstance(call, ast.Call) and call_name(call) == \
+                            'insert' and len(call.args) == 2 and isinstance(
+                                call.args[0], ast.Constant) and \
+                            call.args[0].value == 0:
+                        return 'front', record_of(call.args[1])
+                    if isinstance(call, ast.Call) and call_name(call) == \
+                            'append' and call.args:
+                        return 'end', record_of(call.args[0])
+            return None, None
+        pdec, rdec = placement(dec)
+        pinc, rinc = placement(inc)
+        if None in (pdec, rdec, pinc, rinc):
+            ctx.undecided('EDGE-END', func, 'placement / source of the '
+                          'missing edge not recognised', at=func.where(node))
+            continue
+        ok = (pdec, rdec) == ('front', 'first') and (pinc, rinc) == (
+            'end', 'last')
+        ctx.decide('EDGE-END', func,
+                   f'decreasing grid: edge of the {rdec} record goes to the '
+                   f'{pdec}; increasing grid: edge of the {rinc} record goes '
+                   f'to the {pinc}', ok, at=func.where(node),
+                   detail='for a grid printed in decreasing order the '
+                          'largest bin is printed first: its upper edge is '
+                          'in the first record; taking it from the last one '
+                          'inserts an inner boundary, the bins are then '
+                          'neither complete nor monotonic' if not ok
+                   else None)
+    ctx.floor('EDGE-END', found, 1, 'order test in _add_last_bin_for_dim')
